@@ -133,4 +133,53 @@ theorem hostNameOk_iff (s : String) : hostNameOk s = true ↔ IsHostName s := by
     rw [hs, c02_splitDots_joinDots labels hne (fun p hp => c02_label_nodot p (hl p hp))]
     exact hl
 
+/-! ### what the languages exclude -/
+
+/-- every character of a documented IPv4 address is an ASCII digit or a dot - in particular no newline, no other digit -/
+theorem IsIPv4.chars (s : String) (h : IsIPv4 s) : ∀ c ∈ s.toList, isAsciiDigit c = true ∨ c = '.' := by
+  rcases h with ⟨a, b, c, d, hs, ha, hb, hc, hd⟩
+  intro x hx
+  rw [hs] at hx
+  simp only [joinDots, List.mem_append, List.mem_cons] at hx
+  rcases hx with h1 | rfl | h1 | rfl | h1 | rfl | h1
+  · exact Or.inl (ha.2.2.1 x h1)
+  · exact Or.inr rfl
+  · exact Or.inl (hb.2.2.1 x h1)
+  · exact Or.inr rfl
+  · exact Or.inl (hc.2.2.1 x h1)
+  · exact Or.inr rfl
+  · exact Or.inl (hd.2.2.1 x h1)
+
+/-- … and it has 7..15 characters -/
+theorem IsIPv4.length (s : String) (h : IsIPv4 s) : 7 ≤ s.toList.length ∧ s.toList.length ≤ 15 := by
+  rcases h with ⟨a, b, c, d, hs, ha, hb, hc, hd⟩
+  rw [hs]
+  simp only [joinDots, List.length_append, List.length_cons]
+  have := ha.1; have := ha.2.1; have := hb.1; have := hb.2.1; have := hc.1; have := hc.2.1; have := hd.1; have := hd.2.1
+  omega
+
+theorem c02_mem_joinDots : ∀ (ps : List (List Char)) (x : Char), x ∈ joinDots ps → x = '.' ∨ ∃ p ∈ ps, x ∈ p
+  | [], x, h => by simp [joinDots] at h
+  | [p], x, h => Or.inr ⟨p, by simp, by simpa [joinDots] using h⟩
+  | p :: q :: ps, x, h => by
+    simp only [joinDots, List.mem_append, List.mem_cons] at h
+    rcases h with h1 | rfl | h1
+    · exact Or.inr ⟨p, by simp, h1⟩
+    · exact Or.inl rfl
+    · rcases c02_mem_joinDots (q :: ps) x h1 with h2 | ⟨r, hr, hx⟩
+      · exact Or.inl h2
+      · exact Or.inr ⟨r, by simp [List.mem_cons] at hr ⊢; exact Or.inr hr, hx⟩
+
+/-- every character of a documented host name is an ASCII letter, an ASCII digit, a hyphen or a dot -/
+theorem IsHostName.chars (s : String) (h : IsHostName s) :
+    ∀ c ∈ s.toList, isAsciiAlnum c = true ∨ c = '-' ∨ c = '.' := by
+  rcases h with ⟨_, _, labels, _, hs, hl⟩
+  intro x hx
+  rw [hs] at hx
+  rcases c02_mem_joinDots labels x hx with rfl | ⟨p, hp, hxp⟩
+  · exact Or.inr (Or.inr rfl)
+  · rcases (hl p hp).2.2.1 x hxp with h1 | h1
+    · exact Or.inl h1
+    · exact Or.inr (Or.inl h1)
+
 end Typedpy
